@@ -435,6 +435,77 @@ func runRouteCase(cs *RouteCase) (fs []finding) {
 		if mr == 1 && or && (mn != 1 || !on) {
 			add("route-differs:negative-batch-concurrency:behaviour", "batch concurrency %d: the constructor-option form ran 6 items strictly one at a time in item order; given through route %q the same value had %d items in flight at once (in item order: %v)", cs.Val, cs.Route, mn, on)
 		}
+	case "user-option-factory":
+		// options produced by one user helper (one function literal, different captured parameters) are separate options:
+		// each one is applied, in order
+		tune := tuneOption
+		tuneNO := func(what string, v int) flyt.NodeOption { return flyt.NodeOption(tuneOption(what, v)) }
+		type getters interface {
+			GetMaxRetries() int
+			GetWait() time.Duration
+			GetBatchConcurrency() int
+		}
+		var g getters
+		switch cs.Route {
+		case "node-plain-funcs":
+			g = flyt.NewNode(tune("retries", cs.Val), tune("wait", 7), tune("conc", 3))
+		case "node-nodeoptions":
+			g = flyt.NewNode(tuneNO("retries", cs.Val), tuneNO("wait", 7), tuneNO("conc", 3))
+		case "batch-plain-funcs":
+			g = flyt.NewBatchNode(tune("retries", cs.Val), tune("wait", 7), tune("conc", 3))
+		case "batch-nodeoptions":
+			g = flyt.NewBatchNode(tuneNO("wait", 7), tuneNO("conc", 3), tuneNO("retries", cs.Val))
+		case "base-node":
+			g = flyt.NewBaseNode(tuneNO("retries", cs.Val), tuneNO("wait", 7), tuneNO("conc", 3))
+		}
+		if g.GetMaxRetries() != cs.Val || g.GetWait() != 7 || g.GetBatchConcurrency() != 3 {
+			add("user-option-factory:"+cs.Route, "three options made by one helper function (retries=%d, wait=7ns, concurrency=3) given to the constructor (%s): the node reports retries=%d wait=%v concurrency=%d — every option is applied, unrelated parameters stay untouched", cs.Val, cs.Route, g.GetMaxRetries(), g.GetWait(), g.GetBatchConcurrency())
+		}
+	case "panicking-exec":
+		// an exec function that panics on one item: whatever the framework does about it, it does the same for the
+		// constructor-option form and the builder-method form of the same function
+		type outcome struct {
+			escaped bool
+			posts   int
+			calls   int
+			errNil  bool
+		}
+		runForm := func(form string) (o outcome) {
+			fn := func(ctx context.Context, v any) (any, error) {
+				o.calls++
+				if v.(int) == 1 {
+					panic("item 1 cannot be processed")
+				}
+				return v, nil
+			}
+			prep := func(ctx context.Context, s *flyt.SharedStore) ([]flyt.Result, error) {
+				return []flyt.Result{flyt.NewResult(0), flyt.NewResult(1), flyt.NewResult(2)}, nil
+			}
+			post := func(ctx context.Context, s *flyt.SharedStore, items, results []flyt.Result) (flyt.Action, error) {
+				o.posts++
+				return "done", nil
+			}
+			var bn *flyt.BatchNodeBuilder
+			if form == "option" {
+				bn = flyt.NewBatchNode(flyt.WithExecFuncAny(fn), flyt.WithMaxRetries(cs.Val)).WithPrepFunc(prep).WithPostFunc(post)
+			} else {
+				bn = flyt.NewBatchNode().WithMaxRetries(cs.Val).WithExecFuncAny(fn).WithPrepFunc(prep).WithPostFunc(post)
+			}
+			func() {
+				defer func() {
+					if recover() != nil {
+						o.escaped = true
+					}
+				}()
+				_, err := flyt.Run(context.Background(), bn, flyt.NewSharedStore())
+				o.errNil = err == nil
+			}()
+			return o
+		}
+		a, b := runForm("option"), runForm("builder")
+		if a != b {
+			add("route-differs:panicking-exec", "sequential batch of 3 items (budget %d) whose any-style exec function panics on item 1: given as a constructor option the panic escaped Run: %v, exec calls: %d, post calls: %d, nil error: %v; given through the builder method: escaped %v, exec calls %d, post calls %d, nil error %v", cs.Val, a.escaped, a.calls, a.posts, a.errNil, b.escaped, b.calls, b.posts, b.errNil)
+		}
 	case "configured-after-wiring":
 		// the budget is (re-)configured AFTER the node has been handed to NewFlow / Connect: the setting in force when the
 		// node runs is the budget — through flyt.Run on the node and through the flow alike
@@ -605,4 +676,21 @@ func bindCyclicValues() (fs []finding) {
 		}
 	}
 	return fs
+}
+
+
+// tuneOption is a user-side option factory: every option it returns is a closure of the one function literal below.
+//
+//go:noinline
+func tuneOption(what string, v int) func(*flyt.BaseNode) {
+	return func(b *flyt.BaseNode) {
+		switch what {
+		case "retries":
+			flyt.WithMaxRetries(v)(b)
+		case "wait":
+			flyt.WithWait(time.Duration(v))(b)
+		case "conc":
+			flyt.WithBatchConcurrency(v)(b)
+		}
+	}
 }
